@@ -330,8 +330,8 @@ impl Client<Open> {
         requires all_loads_acked(old(self).session.trace@),
         ensures
             // all load replies are awaited - and checked - before load_config reports success
-            res matches Ok(c) ==> all_loads_acked(c.session.trace@),                          // OBL:C04.load_config.ok_means_every_load_acknowledged
-            res matches Ok(c) ==> (all_acked(old(self).session.trace@) ==> all_acked(c.session.trace@)),   // OBL:C04.load_config.ok_keeps_every_step_acknowledged
+            res matches Ok(c) ==> all_loads_acked(c.session.trace@),                          // OBL:C04+C01.load_config.ok_means_every_load_acknowledged
+            res matches Ok(c) ==> (all_acked(old(self).session.trace@) ==> all_acked(c.session.trace@)),   // OBL:C04+C01.load_config.ok_keeps_every_step_acknowledged
             res matches Ok(c) ==> (db_open(old(self).session.trace@) ==> db_open(c.session.trace@)),
             res matches Ok(c) ==> (!commit_sent(old(self).session.trace@) ==> !commit_sent(c.session.trace@)),   // OBL:C04.load_config.requests_no_commit
             res matches Ok(c) ==> *final(c) == *final(self) && c.session.sid == old(self).session.sid,
@@ -341,7 +341,7 @@ impl Client<Open> {
             res is Err ==> env_fault(),                                                       // OBL:C15.load_config.fails_only_on_environment_faults
 //@loop 1
                 invariant
-                    loads_tracked(old(self).session.trace@, self.session.trace@, updates@),  // OBL:C04.load_config.every_sent_load_is_tracked
+                    loads_tracked(old(self).session.trace@, self.session.trace@, updates@),  // OBL:C04+C01.load_config.every_sent_load_is_tracked
                     db_open(old(self).session.trace@) ==> db_open(self.session.trace@),
                     !commit_sent(old(self).session.trace@) ==> !commit_sent(self.session.trace@),
                     self.session.sid == old(self).session.sid,
@@ -353,7 +353,7 @@ impl Client<Open> {
                 db_open(old(self).session.trace@) ==> db_open(self.session.trace@),
                 !commit_sent(old(self).session.trace@) ==> !commit_sent(self.session.trace@),
                 self.session.sid == old(self).session.sid,
-                forall|j: int| 0 <= j < it__1.pos@ ==> acked_ok((#[trigger] it__1.items@[j]).ticket@),   // OBL:C04.load_config.awaited_loads_acknowledged
+                forall|j: int| 0 <= j < it__1.pos@ ==> acked_ok((#[trigger] it__1.items@[j]).ticket@),   // OBL:C04+C01.load_config.awaited_loads_acknowledged
             ensures it__1.pos@ == it__1.items@.len(),
             decreases it__1.items@.len() - it__1.pos@,
 //@after /let (mut )?updates = \{/
